@@ -89,8 +89,39 @@ func suiteText(tier string, seed uint64, model string) *Report {
 			strs = append(strs, string([]byte{byte(a), b}))
 		}
 	}
+	// and beyond ASCII: every byte alone and after a lead byte, runes of every width, the escaped
+	// runes U+2028 / U+2029, U+FFFD itself, truncated, overlong and surrogate encodings
+	for a := 128; a < 256; a++ {
+		strs = append(strs, string([]byte{byte(a)}), string([]byte{'a', byte(a)}), string([]byte{0xc3, byte(a)}),
+			string([]byte{0xe2, 0x80, byte(a)}), string([]byte{0xe2, byte(a), 0xa8}), string([]byte{0xf0, 0x9f, 0x98, byte(a)}), string([]byte{byte(a), '\'', 0x80}))
+	}
+	for _, u := range []string{"é", "€", "😀", "\u2028", "\u2029", "\ufffd", "\ufeff", "\xc3", "\xe2\x80", "\xff", "\xed\xa0\x80", "\xc0\x80", "\xf4\x90\x80\x80", "\xf0\x9f\x98"} {
+		for _, v := range []string{"", "a", "'", "\"", "\\", "\n", "\x00", "é", "\xff", "\u2028"} {
+			strs = append(strs, u+v, v+u, v+u+v)
+		}
+	}
 	for _, s := range strs {
 		sreqs = append(sreqs, "jpstr\t"+hx([]byte(s))+"\t27", "jpstr\t"+hx([]byte(s))+"\t22")
+	}
+	// the reader model (Jp/Str.v read_str) against the parser: what AppendString wrote, and
+	// hand-made literals with every escape form, as the key of a bracketed child
+	var rtexts []string
+	var rdelims []byte
+	for _, s := range strs {
+		for _, delim := range []byte{'\'', '"'} {
+			rtexts = append(rtexts, string(jp.AppendString(nil, s, delim)[1:])+"]")
+			rdelims = append(rdelims, delim)
+		}
+	}
+	for _, body := range []string{`a\nb`, `\b\t\n\f\r`, `\"\'\\`, `\u0041`, `\U0041`, `\u00e9`, `\ud83d\ude00`, `\uFFFF`, `\u00E9`, `\x41`, `\/`, `\a`, `\u12`, `\u12g4`, "é", "\xff", "a\"b", "a'b", ``, `\u0000`} {
+		for _, delim := range []byte{'\'', '"'} {
+			rtexts = append(rtexts, body+string(delim)+"]")
+			rdelims = append(rdelims, delim)
+		}
+	}
+	var rreqs []string
+	for i, t := range rtexts {
+		rreqs = append(rreqs, fmt.Sprintf("jpread\t%02x\t%s", rdelims[i], hx([]byte(t))))
 	}
 	type pc struct {
 		path []Frag
@@ -181,6 +212,42 @@ func suiteText(tier string, seed uint64, model string) *Report {
 		return rep
 	}
 	sans, ans := ans[:len(sreqs)], ans[len(sreqs):]
+	rans, err := RunModel(model, rreqs)
+	if err != nil {
+		rep.Add(Disagreement{Kind: "harness-error", Detail: err.Error()})
+		return rep
+	}
+	inDom := 0
+	for i, t := range rtexts {
+		rep.Evaluations++
+		if rans[i] == "-" {
+			continue // outside the reader model (\x escapes, bad escapes, not terminated)
+		}
+		sp := strings.SplitN(rans[i], " ", 2)
+		if len(sp) != 2 || sp[1] != hx([]byte("]")) {
+			continue // hand-made text whose literal ends early
+		}
+		inDom++
+		doc := "$[" + string(rdelims[i]) + t
+		got := safe(func() string {
+			y, err := jp.ParseString(doc)
+			if err != nil {
+				return "E " + err.Error()
+			}
+			if len(y) != 2 {
+				return fmt.Sprintf("? %d fragments", len(y))
+			}
+			c, ok := y[1].(jp.Child)
+			if !ok {
+				return fmt.Sprintf("? %T", y[1])
+			}
+			return hx([]byte(string(c)))
+		})
+		if got != sp[0] {
+			rep.Add(Disagreement{Case: fmt.Sprintf("%q", doc), Where: "jp.ParseString vs read_str", Kind: "impl-vs-model:string-read", Impl: got, Model: sp[0]})
+		}
+	}
+	rep.Count(fmt.Sprintf("string-reader-model:in-domain=%d of %d", inDom, len(rtexts)))
 	for i, s := range strs {
 		for j, delim := range []byte{'\'', '"'} {
 			impl := hx(jp.AppendString(nil, s, delim))
@@ -202,8 +269,9 @@ func suiteText(tier string, seed uint64, model string) *Report {
 			c, _ := y[1].(jp.Child)
 			return hx([]byte(string(c)))
 		})
-		if back != hx([]byte(s)) {
-			rep.Add(Disagreement{Case: hx([]byte(s)), Where: "ParseString(C(key).String())", Kind: "impl-vs-spec:key-roundtrip", Impl: back, Spec: hx([]byte(s))})
+		// identical, or (bracket form, invalid UTF-8 only) with the invalid bytes replaced by U+FFFD
+		if back != hx([]byte(s)) && back != hx([]byte(sanitizeGo(s))) {
+			rep.Add(Disagreement{Case: hx([]byte(s)), Where: "ParseString(C(key).String())", Kind: "impl-vs-spec:key-roundtrip", Impl: back, Spec: hx([]byte(sanitizeGo(s)))})
 		}
 	}
 	distinct := map[string]bool{}
